@@ -175,10 +175,10 @@ func lagPhases(rep *explore.Report, prop string) {
 		lagPhase(rep, prop, 2, 0, time.Now().Add(4*time.Minute))
 		return
 	}
-	lagPhase(rep, prop, 1, 0, time.Now().Add(40*time.Second))
+	lagPhase(rep, prop, 1, 0, explore.Deadline(40*time.Second, time.Minute))
 	if prop == "C03" {
 		// the "live up-to-date pod is never deleted" clause needs a cache two events behind
-		lagPhase(rep, prop, 2, 0, time.Now().Add(60*time.Second))
+		lagPhase(rep, prop, 2, 0, explore.Deadline(60*time.Second, time.Minute))
 	}
 }
 
